@@ -9,6 +9,12 @@ Three exhaustive families on the real code, each with a plain-python reference:
     attribute included) x generator kind x creation route; the same with one
     referential attribute inserted at every position; the same with one
     attribute of an unknown type at every position (must be rejected).
+    Family "names": the attribute is named like something the library or python
+    itself uses -- every identifier found, at run time, in the code objects of
+    xtuml.meta (arguments, locals, attribute and global names, identifier-like
+    string constants) and in dir() of Class / MetaClass / object -- declared as
+    found and in another case form, of every core type, before and after a
+    companion id attribute, x every split x creation route, each instance cloned.
  B  generator histories (E1, search to closure under a counter cap): peek,
     next(), next(gen), new of classes with 0 / 1 / 2 id attributes, new with
     explicit ids, all on one metamodel; for IntegerGenerator, UUIDGenerator,
@@ -47,6 +53,12 @@ ORPHAN_GENS = ['int', 'recuuid', 'nonnull']
 ORPHAN_ROUTES = ['mc.new', 'mc()', 'inst.new']      # inst.new: xtuml.get_metaclass(<previous instance>).new(...)
 DROP_KINDS = ['int', 'default', 'audited']
 DROP_NEW = ['new K1', 'new K2', 'new K2 x Id2=y']
+# family "names": attribute names that coincide with names the library itself (or python) uses
+NAME_FLOOR = ['self', 'cls', 'kind', 'inst', 'instance', 'referentials', 'args', 'kwargs', 'name', 'value', 'values',
+              'metaclass', 'metamodel']
+NAME_MODULES = {'quick': ['xtuml.meta'], 'thorough': ['xtuml.meta', 'xtuml.tools', 'xtuml.load', 'xtuml.persist']}
+NAME_GENS = {'quick': ['int'], 'thorough': ['int', 'user', 'recuuid']}
+NAME_COMPANION = ['Cq', 'unique_id']
 ASSUMPTIONS = [
     'the first sentence of the statement is read literally: every non-referential attribute is given its default before the '
     'arguments are applied, so one generator value is consumed per non-referential unique_id attribute even when an explicit '
@@ -86,6 +98,17 @@ ASSUMPTIONS = [
     'generator histories, menu reseed: the program calls random.seed(%d) up to %d times between peek / next / creations (every '
     'generator kind); the operation seeds explicitly, nothing else in the check depends on the state of the random module; canonical '
     'state includes the numbers of values handed out at each re-seed' % (RESEED_VALUE, RESEED_MAX),
+    '"all schemas" includes schemas whose attribute names coincide with names the library or python uses (family names): the '
+    'pool is computed from the tree under test -- co_varnames, co_names, co_freevars, co_cellvars and identifier-like string '
+    'constants of every code object (nested ones included) of the functions, methods and properties defined in %s (thorough: %s), '
+    'dir() of xtuml.meta.Class, MetaClass and object, plus the fixed names %s -- filtered to xtuml identifiers ([A-Za-z_][A-Za-z0-9_]*); '
+    'excluded by rule: names of the form __x__, which python reserves for its object protocol (an instance attribute __class__, '
+    '__dict__ or __weakref__ cannot hold a plain value in any python class) and where the library keeps the __metaclass__ slot of '
+    'its instance classes. Every pool name is declared as found and in one other case form (quick; thorough: upper, lower, '
+    'capitalised, swapped), with each core type, before and after a companion attribute %s, for every split into positional prefix '
+    '/ keyword / omitted, every creation route, generators %s (thorough %s); every instance is read back under the declared '
+    'spelling and cloned (MetaModel.clone for route m.new, MetaClass.clone otherwise), keywords are spelled as declared' %
+    (NAME_MODULES['quick'], NAME_MODULES['thorough'], NAME_FLOOR, NAME_COMPANION, NAME_GENS['quick'], NAME_GENS['thorough']),
     'keyword arguments are spelled as declared (other spellings: C10); the value read back for a referential attribute is '
     'compared only when the call supplied the id of an existing instance',
 ]
@@ -146,6 +169,102 @@ def spell(ty, style):
 
 def is_null_id(v):
     return v is None or (isinstance(v, int) and not isinstance(v, bool) and v == 0) or v == ''
+
+
+# ---------------------------------------------------------------------------
+# family "names": the pool of names the tree under test itself uses
+# ---------------------------------------------------------------------------
+
+import re
+import types as _types
+
+XTUML_ID = re.compile(r'^[A-Za-z_][A-Za-z0-9_]*$')          # t_ID of xtuml/load.py
+DUNDER = re.compile(r'^__.*__$')
+
+
+def code_objects(mod):
+    '''Every code object of the functions, methods and properties defined in module *mod*, nested ones included.'''
+    seen, out = set(), []
+
+    def walk_code(co):
+        if id(co) in seen:
+            return
+        seen.add(id(co))
+        out.append(co)
+        for c in co.co_consts:
+            if isinstance(c, _types.CodeType):
+                walk_code(c)
+
+    def walk(o):
+        if isinstance(o, (staticmethod, classmethod)):
+            o = o.__func__
+        if isinstance(o, property):
+            for f in (o.fget, o.fset, o.fdel):
+                if f is not None:
+                    walk(f)
+        elif isinstance(o, _types.FunctionType):
+            if o.__module__ == mod.__name__:
+                walk_code(o.__code__)
+        elif isinstance(o, type):
+            if o.__module__ == mod.__name__ and id(o) not in seen:
+                seen.add(id(o))
+                for v in list(vars(o).values()):
+                    walk(v)
+    for v in list(vars(mod).values()):
+        walk(v)
+    return out
+
+
+def name_pool(tier):
+    '''Sorted list of the names of the family (see ASSUMPTIONS), computed from the tree under test.'''
+    import importlib
+    import xtuml.meta
+    names = set(NAME_FLOOR)
+    for modname in NAME_MODULES[tier]:
+        try:
+            mod = importlib.import_module(modname)
+        except ImportError:
+            continue
+        for co in code_objects(mod):
+            for group in (co.co_varnames, co.co_names, co.co_freevars, co.co_cellvars):
+                names.update(group)
+            names.update(c for c in co.co_consts if isinstance(c, str))
+    for o in (xtuml.meta.Class, xtuml.meta.MetaClass, object):
+        names.update(dir(o))
+    return sorted(n for n in names if XTUML_ID.match(n) and not DUNDER.match(n))
+
+
+def case_forms(name, tier):
+    '''The declared spellings of one pool name: as found, then other case forms (quick: the first that differs).'''
+    forms = [name]
+    for f in (name.upper(), name.lower(), name.capitalize(), name.swapcase()):
+        if f not in forms:
+            forms.append(f)
+    return forms[:2] if tier == 'quick' else forms
+
+
+def run_names(sub, task):
+    '''Every creation case of one pool name.'''
+    _, name, _ = task
+    tier = sub.tier
+    for form in case_forms(name, tier):
+        companion = NAME_COMPANION[0] if form.upper() != NAME_COMPANION[0].upper() else NAME_COMPANION[0] + '2'
+        for ty in TYPES:
+            for style in ((0,) if tier == 'quick' else (0, 1, 2)):
+                for pos in (0, 1):
+                    attr_names = [companion]
+                    attr_types = [NAME_COMPANION[1]]
+                    attr_names.insert(pos, form)
+                    attr_types.insert(pos, spell(ty, style))
+                    sub.count('schemas')
+                    sub.count('name_schemas')
+                    for npos, kw in shapes(2):
+                        for gen in NAME_GENS[tier]:
+                            for route in ROUTES:
+                                run_creation(sub, dict(part='create', fam='names', types=attr_types, attr_names=attr_names,
+                                                       pool_name=name, at=pos, special=None, unknown=None, npos=npos, kw=kw,
+                                                       gen=gen, route=route, names=0, nones=False))
+    return None
 
 
 # ---------------------------------------------------------------------------
@@ -447,6 +566,8 @@ def schema_tasks(tier):
             for j in range(k + 1):
                 tasks.append(('ref', list(types), j))
                 tasks.append(('unknown', list(types), j))
+    for name in name_pool(tier):
+        tasks.append(('names', name, None))
     return tasks
 
 
@@ -459,6 +580,8 @@ def shapes(n):
 
 def run_schema(sub, task):
     fam, types, special = task
+    if fam == 'names':
+        return run_names(sub, task)
     names = sub.seed % len(NAME_PALETTES)
     k = len(types)
     drop = False
@@ -507,7 +630,7 @@ def run_schema(sub, task):
 
 def layout(case):
     '''[(name, declared type, TYPE or None, role)] for class K of a creation case.'''
-    names = NAME_PALETTES[case['names']]
+    names = case['attr_names'] if case['fam'] == 'names' else NAME_PALETTES[case['names']]
     attrs = [(names[i], t, t.upper(), 'plain') for i, t in enumerate(case['types'])]
     if case['fam'] == 'ref':
         attrs.insert(case['special'], ('Ref', spell('UNIQUE_ID', case.get('special_style', 0)), 'UNIQUE_ID', 'ref'))
@@ -569,7 +692,7 @@ def run_creation(sub, case):
     if not ok:
         problems = [('hang', 'creation did not finish within %.0f s (three attempts)' % LIMIT_S, None, None)]
     for kind, msg, exp, obs in problems[:1]:
-        sub.violation('c19:' + kind, case, 'class K(%s), %s%s, generator %s, positional prefix %d, keywords %s: %s' %
+        sub.violation('c19:' + ('names:' if case['fam'] == 'names' else '') + kind, case, 'class K(%s), %s%s, generator %s, positional prefix %d, keywords %s: %s' %
                       (', '.join('%s %s' % (a[0], a[1]) for a in layout(case)), case['route'],
                        ' after the last reference to the metamodel was dropped' if case.get('drop') else '', case['gen'],
                        case['npos'], case['kw'], msg), exp, obs, unit_test=unit_test_creation(case))
@@ -634,6 +757,9 @@ def _creation(sub, case):
         sub.count('next_override_cases')
     if case['gen'] in ITER_KINDS:
         sub.count('plain_iterator_cases')
+    if case['fam'] == 'names':
+        sub.count('name_cases')
+        sub.distinct('pool_names', case.get('pool_name'))
     jattrs = [(a[0], a[2], a[3]) for a in attrs]
     inst = None
     for inst_no in instance_numbers(case):
@@ -651,15 +777,27 @@ def _creation(sub, case):
         if not got:
             sub.distinct('outcomes', tuple((ty, i in explicit, type(getattr(inst, nm)).__name__)
                                            for i, (nm, ty, _) in enumerate(jattrs)))
-        if inst_no >= 2 and not got:
-            nones = sum(1 for v in explicit.values() if v is None)
-            sub.count('none_values', nones)
-            sub.count('keyword_none_over_positional', sum(1 for i in case['kw'] if i < case['npos']) if inst_no == 3 else 0)
+        if case['fam'] == 'names':
+            sub.count('name_instances')
+            sub.count('name_keyword_values', int(case['at'] in case['kw']))
+            sub.count('name_positional_values', int(case['at'] < case['npos']))
+            sub.count('name_defaulted_values', int(case['at'] >= case['npos'] and case['at'] not in case['kw']))
+        if (inst_no >= 2 or case['fam'] == 'names') and not got:
+            if inst_no >= 2:
+                nones = sum(1 for v in explicit.values() if v is None)
+                sub.count('none_values', nones)
+                sub.count('keyword_none_over_positional', sum(1 for i in case['kw'] if i < case['npos']) if inst_no == 3 else 0)
             # clone: every value of the original, unset ones included, arrives positionally
             values = dict((i, getattr(inst, nm)) for i, (nm, _, role) in enumerate(jattrs))
             sub.count('news')
             sub.count('clones')
-            twin = (m if case['route'] == 'm.new' else mc).clone(inst)
+            try:
+                twin = (m if case['route'] == 'm.new' else mc).clone(inst)
+            except Exception as e:
+                return problems + [('clone:exception:%s' % type(e).__name__, 'the clone of the instance created by call number '
+                                    '%d raised %s: %s' % (inst_no + 1, type(e).__name__, e), 'an instance', type(e).__name__)]
+            if case['fam'] == 'names':
+                sub.count('name_clones')
             if case.get('drop'):
                 sub.count('orphan_clones')
             got = judge_instance(twin, jattrs, values, gref)
@@ -706,7 +844,7 @@ def unit_test_creation(case):
                 'inst.new': ('xtuml.get_metaclass(i%d).new(%s)' % (inst_no - 1, a)) if inst_no else 'mc.new(%s)' % a}[case['route']]
         lines.append('i%d = %s' % (inst_no, call))
         lines.append('print([(n, getattr(i%d, n)) for n in %r])' % (inst_no, [x[0] for x in attrs]))
-        if inst_no >= 2:
+        if inst_no >= 2 or case['fam'] == 'names':
             lines.append('c%d = %s.clone(i%d)' % (inst_no, 'm' if case['route'] == 'm.new' else 'mc', inst_no))
             lines.append('print([(n, getattr(c%d, n)) for n in %r])' % (inst_no, [x[0] for x in attrs]))
         if case['fam'] == 'unknown':
@@ -1276,10 +1414,14 @@ def run(ctx):
         dict(part='create', fam='ref', types=['integer', 'Unique_Id'], special=1, unknown=None, special_style=0, npos=2,
              kw=[2], gen='int', route='m.new', names=ctx.seed % len(NAME_PALETTES)))))
     tasks = schema_tasks(ctx.tier)
+    pool = [t[1] for t in tasks if t[0] == 'names']
+    ctx.notes['name_pool'] = pool
+    ctx.sample(dict(part='create', family='names', pool=pool))
     tasks = explorer.rotate(tasks, ctx.seed)
     ctx.pmap(run_schema, tasks, chunk=max(1, len(tasks) // 256))
-    print('  creation: schemas=%d cases=%d instances=%d t=%.0fs' %
-          (ctx.n('schemas'), ctx.n('creation_cases'), ctx.n('instances_judged'), ctx.elapsed()), flush=True)
+    print('  creation: schemas=%d cases=%d instances=%d (names family: pool=%d cases=%d) t=%.0fs' %
+          (ctx.n('schemas'), ctx.n('creation_cases'), ctx.n('instances_judged'), len(pool), ctx.n('name_cases'),
+           ctx.elapsed()), flush=True)
     # -- B: generator histories, search to closure under the counter cap
     cap = 6 if ctx.quick else 9
     total = 0
@@ -1313,6 +1455,15 @@ def run(ctx):
                                                                          res['closed'], ctx.elapsed()), flush=True)
     ctx.require(ctx.n('creations_after_live_edit') >= 1000, 'too few creations after a live edit (%d)' % ctx.n('creations_after_live_edit'))
     # vacuity guards
+    ctx.require(len(pool) >= 100 and 'self' in pool and ctx.nd('pool_names') == len(pool),
+                'family names: the pool computed from the tree under test holds %d names, %d of them were explored' %
+                (len(pool), ctx.nd('pool_names')))
+    ctx.require(ctx.n('name_cases') >= 600 * len(pool) and
+                min(ctx.n('name_keyword_values'), ctx.n('name_positional_values'), ctx.n('name_defaulted_values')) >= 200 * len(pool)
+                and ctx.n('name_clones') >= 1000 * len(pool),
+                'family names: too few creation cases (%d; %d keyword, %d positional, %d defaulted values for the named attribute; '
+                '%d clones)' % (ctx.n('name_cases'), ctx.n('name_keyword_values'), ctx.n('name_positional_values'),
+                                ctx.n('name_defaulted_values'), ctx.n('name_clones')))
     ctx.require(ctx.n('creation_cases') >= (100000 if ctx.quick else 500000),
                 'too few creation cases (%d)' % ctx.n('creation_cases'))
     ctx.require(ctx.n('both_positional_and_keyword') >= 10000, 'too few calls giving an attribute positionally and by keyword')
@@ -1374,6 +1525,14 @@ def coverage(ctx):
                       positional_and_keyword_for_one_attribute=ctx.n('both_positional_and_keyword'),
                       with_defaulted_id=ctx.n('cases_with_defaulted_id'), unknown_type_rejected=ctx.n('unknown_rejected')),
         histories=dict((k, v) for k, v in ctx.notes.items() if isinstance(v, dict)),
+        names_family=dict(pool_size=len(ctx.notes.get('name_pool', [])), pool=ctx.notes.get('name_pool', []),
+                          modules=NAME_MODULES[ctx.tier], fixed_names=NAME_FLOOR, excluded_by_rule='__x__',
+                          case_forms='as found + one other' if ctx.quick else 'as found, upper, lower, capitalised, swapped',
+                          schemas=ctx.n('name_schemas'), cases=ctx.n('name_cases'), instances=ctx.n('name_instances'),
+                          clones=ctx.n('name_clones'), keyword_values_for_the_named_attribute=ctx.n('name_keyword_values'),
+                          positional_values_for_the_named_attribute=ctx.n('name_positional_values'),
+                          defaulted_named_attribute=ctx.n('name_defaulted_values'), generators=NAME_GENS[ctx.tier],
+                          companion=NAME_COMPANION),
         history_states=ctx.n('states'),
         two_generator_sequences=ctx.n('two_generator_sequences'),
         iteration=dict(steps=ctx.n('iteration_steps'), creations_after_an_iteration=ctx.n('creations_after_iteration'),
